@@ -5,6 +5,7 @@ package main
 import (
 	"fmt"
 	"go/ast"
+	"sort"
 	"strconv"
 	"strings"
 )
@@ -373,7 +374,7 @@ func ruleTimeoutNonNeg(c *RC) *RuleResult {
 				if ok, why := nonNegTerm(arg); ok {
 					r.ok(fmt.Sprintf("%s@%s: %s — %s", s.Fn.Name, c.Prog.Pos(s.Node), arg.S, why))
 				} else if strings.Contains(why, "SHIFT-OVERFLOW: ") {
-					r.fail(s.Fn.Name+"/duration-shift-overflow", c.Prog.Pos(s.Node), "duration "+arg.S+" may be negative: "+why[strings.Index(why, "SHIFT-OVERFLOW: ")+len("SHIFT-OVERFLOW: "):])
+					r.fail(c.armerRole(c.servedRoot(s.Fn))+"/duration-shift-overflow", c.Prog.Pos(s.Node), "duration "+arg.S+" may be negative: "+why[strings.Index(why, "SHIFT-OVERFLOW: ")+len("SHIFT-OVERFLOW: "):])
 				} else {
 					r.fail(s.Fn.Name+"/duration", c.Prog.Pos(s.Node), "duration "+arg.S+" may be negative: "+why)
 				}
@@ -755,4 +756,48 @@ func ruleRequestTx(c *RC) *RuleResult {
 		}
 	}
 	return r
+}
+
+// servedRoot: the function a single-caller helper serves (the helper is part of its caller in all but name), so that a
+// construct keeps its identity when a piece of a function is moved into a helper of its own.
+func (c *RC) servedRoot(fn *FuncInfo) *FuncInfo {
+	for i := 0; i < 8 && c.A.inlinable(fn); i++ {
+		var up *FuncInfo
+		for _, s := range c.A.callers[fn] {
+			if up != nil && up != s.Fn {
+				return fn
+			}
+			up = s.Fn
+		}
+		if up == nil {
+			return fn
+		}
+		fn = up
+	}
+	return fn
+}
+
+// armerRole: a function's name in terms of what it does for the state machine (so that a finding keeps its identity when
+// the function is renamed): the initialiser (it calls the epoch writer), the sender of a payload kind, else its name.
+func (c *RC) armerRole(fn *FuncInfo) string {
+	for _, ini := range c.initialisers() {
+		if ini == fn {
+			return "initialiser"
+		}
+	}
+	var kinds []string
+	for _, ss := range c.sendSites {
+		if ss.Site.Fn == fn {
+			for _, k := range ss.Kinds {
+				if !strings.HasPrefix(k, "?") {
+					kinds = append(kinds, k)
+				}
+			}
+		}
+	}
+	sort.Strings(kinds)
+	if len(kinds) > 0 {
+		return "sender:" + kinds[0]
+	}
+	return fn.Name
 }
